@@ -90,11 +90,11 @@ class FaultSock:
 
 
 class RealSim:
-    def __init__(self, snapshot="default.snapshot"):
+    def __init__(self, snapshot="default.snapshot", sim_cls=None):
         from geckolib.utils.snapshot import GeckoSnapshot
 
         path = snapshot if os.path.isabs(snapshot) else os.path.join(snapshot_dir(), snapshot)
-        self.sim = quiet_simulator()
+        self.sim = quiet_simulator(sim_cls)
         with contextlib.redirect_stdout(io.StringIO()):
             self.sim.set_snapshot(GeckoSnapshot.parse_log_file(path)[0])
         es = self.sim._socket
@@ -127,8 +127,8 @@ class RealSim:
 class RealRig:
     """One real client connected (real handshake) to one RealSim, on the running loop."""
 
-    def __init__(self, n=0, snapshot="default.snapshot"):
-        self.sim = RealSim(snapshot)
+    def __init__(self, n=0, snapshot="default.snapshot", sim_cls=None):
+        self.sim = RealSim(snapshot, sim_cls)
         self.events = []
         self.n = n
         self.spa = None
